@@ -4,11 +4,16 @@ func init() { registry["C09"] = checkC09 }
 
 func checkC09(e *RunEnv) *CheckResult {
 	paths := []string{"d/x", "d/y", "ad/x", "d.c", "a(b", "g", "d0", "n", "d/s/t/u", "d/n2", "big"}
+	allPaths := append([]string{}, paths...)
+	if !e.Thorough() {
+		// quick: a smaller edit alphabet (the name sweep below covers the sibling names)
+		paths = []string{"d/x", "d/y", "ad/x", "a(b", "g", "n", "d/s/t/u", "big"}
+	}
 	args := []string{"d/x", "d/y", "ad/x", "d.c", "a(b", "g", "d0", "n", "big", "d", "ad", "d/s", "d/s/t", "nope", "d/nope", "d/", "./d", "d/.", "./g", "d//x"}
 	pairs := [][]string{{"d/x", "ad/x"}, {"d", "g"}, {"g", "nope"}, {"nope", "g"}, {"g", "n"}, {"d/y", "d"}, {"d/n2", "d"}, {"d/s", "d"}}
 	var base []Step
 	base = append(base, seedS0()...)
-	for _, p := range paths {
+	for _, p := range allPaths {
 		base = append(base, Write(p, v1(p)))
 	}
 	seed1 := append(append([]Step{}, base...), Run("add", "d/x", "d/y", "d/s", "ad", "d.c", "a(b", "g", "d0", "big"), Run("commit", "-m", "c1"))
@@ -77,5 +82,31 @@ func checkC09(e *RunEnv) *CheckResult {
 			return nil, true
 		},
 	}
-	return runSpec(e, spec, nil)
+	var sweep int
+	return runSpecWith(e, spec, func(x *Explorer) {
+		base := x.BuildState(seedS0())
+		if base == nil {
+			return
+		}
+		var cs []Case
+		for _, set := range subsetsUpTo(sharpNames, e.pick(2, 3)) {
+			pre := sweepBase(set)
+			for _, p := range set {
+				pre = append(pre, Write(p, v2(p)))
+			}
+			last := set[len(set)-1]
+			argsList := append(append([]string{}, set...), dirPrefixes(set)...)
+			for _, arg := range argsList {
+				// worktree mode: edits and one deletion are undone for exactly the named paths
+				cs = append(cs, Case{Base: base, BaseName: "S0", BaseSeed: seedS0(), Steps: append(append([]Step{}, pre...), Delete(last), Run("restore", arg))})
+				// --staged: staged edits, one staged removal, one staged new file
+				st := append(append([]Step{}, pre...), Run(append([]string{"add"}, topLevel(set)...)...), Run("rm", last), Write("zz new", "n\n"), Run("add", "zz new"), Run("restore", "--staged", arg))
+				cs = append(cs, Case{Base: base, BaseName: "S0", BaseSeed: seedS0(), Steps: st})
+			}
+		}
+		sweep = x.RunCases(cs)
+	}, func(x *Explorer, cov map[string]interface{}) {
+		cov["name_sweep_cases"] = sweep
+		cov["states"] = x.States + sweep
+	})
 }
